@@ -47,6 +47,7 @@ package fastcgi
 //@ func (*header).init
 //@   requires h != nil && 0 <= contentLength && contentLength <= 65535
 //@   modifies header.Version, header.Type, header.ID, header.ContentLength, header.PaddingLength
+//@   ensures [length_kept_padding_to_a_multiple_of_eight] int(h.ContentLength) == contentLength && 0 <= int(h.PaddingLength) && int(h.PaddingLength) <= 7 && (contentLength + int(h.PaddingLength)) % 8 == 0
 //@   ensures [fields] h.Version == 1 && h.Type == recType && h.ID == reqID
 //@   ensures [len] int(h.ContentLength) == contentLength
 //@   ensures [pad] h.PaddingLength < 8 && (contentLength + int(h.PaddingLength)) % 8 == 0
@@ -217,3 +218,25 @@ package fastcgi
 //@ // a resolver answering without error returns at least one record (net.LookupSRV reports "no such host" otherwise): assumed
 //@ extern invoke:(github.com/tmpim/casket/caskethttp/fastcgi.srvResolver).LookupSRV
 //@   ensures result2 == nil ==> (len(result1) >= 1 && forall(k, 0, len(result1), result1[k] != nil))
+
+//@ unit fcgi_helpers frames=on props=C13,C19,C11 nilchecks=on verify_pure=on filter=`fastcgi\.FCGIClient\)\.writeRecord$|fastcgi\.(chunked|fastcgiPreset)$`
+//@ // what the record and setup units assume of these helpers, proved: a record is the 8-byte header, the content and the
+//@ // padding the header announces (the padding slice stays inside the 255-byte pad array), under the caller-checked
+//@ // precondition that the content fits a record; the php preset sets extension, split string and index file
+//@ use caskethttp/fastcgi/contracts_verif.go:fcgi_records
+//@ use @verif/specs/stdlib.spec:stdlib
+//@ extern (*bytes.Buffer).Reset
+//@ extern (*bytes.Buffer).Write
+//@ extern (*bytes.Buffer).Bytes
+//@ extern encoding/binary.Write
+//@ func chunked
+//@   pure
+//@ func fastcgiPreset
+//@   requires rule != nil
+//@   modifies Rule.Ext, Rule.SplitPath, Rule.IndexFiles
+//@   ensures [php_preset] (name == "php") == (result == nil) && (result == nil ==> (rule.Ext == ".php" && rule.SplitPath == ".php" && len(rule.IndexFiles) == 1 && rule.IndexFiles[0] == "index.php"))
+//@ func (*FCGIClient).writeRecord
+//@   requires c != nil
+//@   requires [len_fits] len(content) <= 65535
+//@   modifies header.Version, header.Type, header.ID, header.ContentLength, header.PaddingLength, ghost:held
+//@   ensures [lock_balance] held(c.mutex) == old(held(c.mutex))
